@@ -512,6 +512,19 @@ def _is_sym(a, symname):
     return isinstance(a, dict) and a.get('k') == 'ref' and a.get('name') == symname
 
 
+def _mentions_sym(t, symname, depth=0):
+    """does the expression refer to the parameter (otherwise its value does not depend on the input at all)"""
+    if depth > 30:
+        return True
+    if isinstance(t, dict):
+        if t.get('k') == 'ref' and t.get('name') == symname:
+            return True
+        return any(_mentions_sym(v, symname, depth + 1) for v in t.values())
+    if isinstance(t, (list, tuple)):
+        return any(_mentions_sym(v, symname, depth + 1) for v in t)
+    return False
+
+
 def _const_only(t):
     t = symwalk.strip_expect(t)
     if not isinstance(t, dict):
@@ -545,12 +558,33 @@ def _enc_class_results(f, w):
     out = {}
     FREE = (0x2AAAAAAAAAAAAAAA & (MSB - 1), (~0x2AAAAAAAAAAAAAAA) & (MSB - 1))
     for cname, (isnan, isinf, pos, sign) in classes.items():
+        EXPBITS = {32: 8, 64: 11}.get(w, 0)
+        INF_BITS = (((1 << EXPBITS) - 1) << (w - 1 - EXPBITS)) if EXPBITS else None
+        QNAN_BITS = (INF_BITS | (1 << (w - 2 - EXPBITS))) if EXPBITS else None
+
+        def const_class(a):
+            """(isnan, isinf, pos, sign, bits) of a numeric_limits constant the parameter has been overwritten with"""
+            a = symwalk.strip_expect(a)
+            neg_ = False
+            if isinstance(a, dict) and a.get('k') == 'unop' and a.get('op') == '-':
+                neg_ = True
+                a = symwalk.strip_expect(a['sub'])
+            if isinstance(a, dict) and a.get('k') == 'call' and 'numeric_limits' in (a.get('callee') or '') and INF_BITS is not None:
+                if a.get('name') == 'quiet_NaN':
+                    return (True, False, False, neg_, QNAN_BITS | (MSB if neg_ else 0))
+                if a.get('name') == 'infinity':
+                    return (False, True, not neg_, neg_, INF_BITS | (MSB if neg_ else 0))
+            return None
+
         def calls(name, node):
             if name == 'max':
                 return MAX
             if name == 'msb':
                 return MSB
             if name == 'bit_cast':
+                cc = const_class(node['args'][0]) if isinstance(node, dict) and node.get('args') else None
+                if cc is not None:
+                    return cc[4]
                 return calls.B
             raise NumUnsupported('call ' + str(name))
         calls.B = 0
@@ -562,6 +596,18 @@ def _enc_class_results(f, w):
             if c.get('k') == 'unop' and c.get('op') == '!':
                 v = decide(c['sub'])
                 return None if v is None else (not v)
+            if c.get('k') == 'call' and c.get('args') and c.get('name') in ('isnan', '__builtin_isnan', 'isinf', '__builtin_isinf', '__builtin_isinf_sign', 'isfinite', 'signbit'):
+                cc = const_class(c['args'][0])
+                if cc is not None:
+                    # the parameter was overwritten with a constant of a known class before this test
+                    return {'isnan': cc[0], '__builtin_isnan': cc[0], 'isinf': cc[1], '__builtin_isinf': cc[1], '__builtin_isinf_sign': cc[1], 'isfinite': not (cc[0] or cc[1]), 'signbit': cc[3]}[c['name']]
+            if c.get('k') == 'binop' and c.get('op') in ('>', '<') and const_class(c['l']) is not None:
+                r = symwalk.strip_expect(c['r'])
+                cc = const_class(c['l'])
+                if isinstance(r, dict) and r.get('k') == 'int' and int(r['v']) == 0:
+                    if cc[0]:
+                        return False
+                    return cc[2] if c['op'] == '>' else (not cc[2])
             if c.get('k') == 'call' and c.get('name') in ('isnan', '__builtin_isnan') and _is_sym(c['args'][0], pname):
                 return isnan
             if c.get('k') == 'call' and c.get('name') in ('isinf', '__builtin_isinf', '__builtin_isinf_sign') and _is_sym(c['args'][0], pname):
@@ -597,7 +643,7 @@ def _enc_class_results(f, w):
                 for free in FREE:
                     calls.B = (MSB if sign else 0) | free
                     vals.append(bool(evnum(c, w, {}, calls)))
-                if vals[0] == vals[1] and bit_parallel_pred(c, pname):
+                if vals[0] == vals[1] and (bit_parallel_pred(c, pname) or not _mentions_sym(c, pname)):
                     return vals[0]
             except NumUnsupported:
                 return None
@@ -605,6 +651,10 @@ def _enc_class_results(f, w):
         ret, env, trace = symwalk.walk(f, decide)
         ret = symwalk.pick_cond(ret, decide)
         if _const_only(ret):
+            calls.B = 0
+            out[cname] = ('const', evnum(ret, w, {}, calls) & MAX, trace)
+        elif not _mentions_sym(ret, pname):
+            # the result does not depend on the input any more (the parameter was overwritten with a constant)
             calls.B = 0
             out[cname] = ('const', evnum(ret, w, {}, calls) & MAX, trace)
         else:
@@ -720,6 +770,17 @@ def enc3(cfg, mode='order'):
                         got = _dec_walk(g, w, r[1])
                         exp = want.get(cname)
                         ok = exp is not None and got == exp
+                        if not ok and exp is not None and got[0] == 'bits':
+                            # the same value written as its IEEE bit pattern: canonical quiet NaN / infinity of that sign
+                            eb = {32: 8, 64: 11}.get(w)
+                            if eb:
+                                inf_b = ((1 << eb) - 1) << (w - 1 - eb)
+                                qnan_b = inf_b | (1 << (w - 2 - eb))
+                                sgn = (1 << (w - 1)) if (exp[2] * got[2]) < 0 else 0
+                                if exp[1] == 'quiet_NaN' and (got[1] & ~(1 << (w - 1))) == qnan_b:
+                                    ok = True
+                                if exp[1] == 'infinity' and got[1] == (inf_b | ((1 << (w - 1)) if exp[2] < 0 else 0)) and got[2] == 1:
+                                    ok = True
                         why = 'the code 0x%x of the class "%s" decodes to %s instead of %s' % (r[1], cname, _g(got), _g(exp))
                     elif cname.startswith('NaN'):
                         ok = False
